@@ -157,7 +157,7 @@ def make_config(prop, seed, tier):
         "faults": r.random() < 0.75,  # restarts / evictions / clock / chunking enabled
         "steps": r.randint(8, 25) if tier == "quick" else r.randint(10, 60),
         # separate configuration (DESIGN.md 2.3(4)): injected ENOSPC/EIO inside write requests
-        "io_faults": prop in ("C01", "C02", "C07", "C08", "C15", "C16") and r.random() < 0.3,
+        "io_faults": prop in ("C01", "C02", "C07", "C08", "C15", "C16", "C17") and r.random() < 0.3,
         # file mtimes follow the simulated clock, which only moves on clock ops: every
         # write between two of them carries the same timestamp
         "sim_mtime": r.random() < 0.5,
@@ -199,7 +199,7 @@ class HistRun:
         self.digest_hi = hashlib.sha256()
         self.step_no = -1
         self.names_mode = cfg.get("names", "simple")
-        self.uid_pool = ["uid-1", "uid-2", "uid-3", "UID-1", "uid 2", "u,3;x"]
+        self.uid_pool = ["uid-1", "uid-2", "uid-3", "UID-1", "uid 2", "u,3;x", "uid-1 ", " uid-2"]
         self.fresh = 0
         self.post_cal = set()  # members created by POST of text/calendar (calendar objects under any name)
         self.tokens = {}  # coll path -> list of dict(step, token, snap)
